@@ -298,6 +298,9 @@ func (e *Env) Violation(key, what, replayExt string, replay []byte) {
 		}
 	}
 	dir := filepath.Join(e.Verif, "replays", e.ID)
+	if e.Repo != "/repo" {
+		dir = filepath.Join(e.Verif, ".work", "replays-scratch", e.ID)
+	}
 	_ = os.MkdirAll(dir, 0o755)
 	h := sha256.Sum256(append([]byte(key+"\x00"), replay...))
 	p := filepath.Join(dir, hex.EncodeToString(h[:8])+"."+strings.TrimPrefix(replayExt, "."))
@@ -398,8 +401,14 @@ func (e *Env) Finish(c Coverage) {
 	}
 	ok := c.Evaluations >= 1 && c.DistinctNontrivial >= 2 && len(c.Samples) >= 1
 	b, _ := json.MarshalIndent(ev, "", " ")
-	_ = os.MkdirAll(filepath.Join(e.Verif, "evidence"), 0o755)
-	_ = os.WriteFile(filepath.Join(e.Verif, "evidence", e.ID+".json"), append(b, '\n'), 0o644)
+	// evidence describes /repo itself; a run against a scratch tree (VERIF_REPO) must not
+	// overwrite it
+	evDir := filepath.Join(e.Verif, "evidence")
+	if e.Repo != "/repo" {
+		evDir = filepath.Join(e.Verif, ".work", "evidence-scratch")
+	}
+	_ = os.MkdirAll(evDir, 0o755)
+	_ = os.WriteFile(filepath.Join(evDir, e.ID+".json"), append(b, '\n'), 0o644)
 	_ = os.RemoveAll(e.Scratch)
 
 	ids := make([]string, 0, len(e.knownHit))
